@@ -21,7 +21,7 @@ EXTENDS Integers, Sequences, FiniteSets, TLC
 CONSTANTS ValueOpts, NidOpts, NonceOpts, StepOpts, TsOpts,   \* ids of numeric field options (see NumOf)
           FromOpts, ToOpts,                                   \* address forms: "canon" | "upper" | "noprefix" | "cx"
           DataOpts,                                           \* ids of data payload classes (see DataOf)
-          DTypeOpts,                                          \* "absent" | "message" | "call"
+          DTypeOpts,                                          \* "absent" | "message" | "call" | "patch"
           MemoOpts, HashOpts,                                 \* subsets of BOOLEAN: unknown field "memo" / a "txHash" field present
           Starts,                                             \* subset of {"json", "rlp"}
           MaxOps,
@@ -104,6 +104,8 @@ DataOf(id) ==
     [] id = "call"    -> Dict(<<E(<<"m", "e", "t", "h", "o", "d">>, Str(Chars_method)),
                                  E(<<"p", "a", "r", "a", "m", "s">>,
                                    Dict(<<E(<<"_", "t", "o">>, Str(<<"h", "x", "1", "2">>)), E(<<"_", "v">>, Str(Chars_hex)), E(<<"n">>, Null)>>))>>)
+    [] id = "patch"   -> Dict(<<E(<<"d", "a", "t", "a">>, Str(<<"A", "Q", "I", "D">>)),            \* contract.Patch: base64 bytes
+                                 E(<<"t", "y", "p", "e">>, Str(<<"s", "k", "i", "p", "_", "t", "x", "s">>))>>)
 \* serializeValue / serializeList / serializeDict
 RECURSIVE SerVal(_), SerItems(_, _, _), SerEntries(_, _, _)
 SerVal(t) ==
@@ -128,7 +130,8 @@ EquivClass(id) == CASE id \in {"num", "numstr", "float"} -> "five"
 Descs ==
   {d \in [value : ValueOpts, nid : NidOpts, nonce : NonceOpts, step : StepOpts, ts : TsOpts, from : FromOpts, to : ToOpts,
           data : DataOpts, dtype : DTypeOpts, memo : MemoOpts, txhash : HashOpts, fromw : {"F"}, tow : {"T"}] :
-     (d.dtype = "call") <=> (d.data = "call")}
+     /\ (d.dtype = "call") <=> (d.data = "call")
+     /\ (d.dtype = "patch") <=> (d.data = "patch")}        \* patch transactions: version 3 with dataType "patch"
 \* top-level JSON entries <<key, kind, serialized value>> of the SUBMITTED document, in sorted key order
 \* (signature and txHash are excluded from the serialization)
 \* JSON-level entries [key, jk, text, tree]: jk = "str" (a JSON string without characters that need escaping),
@@ -239,9 +242,9 @@ Changes ==
    [what |-> "from", d |-> [desc EXCEPT !.fromw = "X"]],
    [what |-> "to", d |-> [desc EXCEPT !.tow = "X"]],
    [what |-> "to-kind", d |-> [desc EXCEPT !.to = IF @ = "cx" THEN "canon" ELSE "cx"]]}
-  \cup (IF desc.dtype = "call" THEN {}
+  \cup (IF desc.dtype \in {"call", "patch"} THEN {}
         ELSE {[what |-> "dataType", d |-> [desc EXCEPT !.dtype = IF @ = "message" THEN "absent" ELSE "message"]]}
-             \cup {[what |-> "data", d |-> [desc EXCEPT !.data = o]] : o \in DataOpts \ {desc.data, "call"}})
+             \cup {[what |-> "data", d |-> [desc EXCEPT !.data = o]] : o \in DataOpts \ {desc.data, "call", "patch"}})
 \* the two documents have the same id iff only the data changed and both payloads are in one equivalence class
 SameId(c) == c.what = "data" /\ EquivClass(c.d.data) = EquivClass(desc.data)
 CompareWith(c) ==
